@@ -1,5 +1,9 @@
 import Sessions.Model
 import Std.Data.HashMap
+import Drv.Pw
+import Drv.Ids
+import Drv.Codec
+import Drv.Mx
 /-!
 # Driver: runs the Lean model on a script and prints the transcript the harness prints
 
@@ -313,4 +317,8 @@ def runSess (scriptPath transcriptPath : String) : IO Unit := do
 def main (args : List String) : IO UInt32 := do
   match args with
   | ["sess", script, transcript] => runSess script transcript; return 0
+  | "pw" :: rest => Drv.runPw rest
+  | "ids" :: rest => Drv.runIds rest
+  | "codec" :: rest => Drv.runCodec rest
+  | "mx" :: rest => Drv.runMx rest
   | _ => IO.eprintln "usage: driver sess <script> <impl-transcript>"; return 2
